@@ -10,14 +10,23 @@ import (
 )
 
 func podGroupsEqual(oldPodGroup, newPodGroup *enginev2alpha2.PodGroup) bool {
-	return reflect.DeepEqual(oldPodGroup.Spec, newPodGroup.Spec) &&
+	// An empty sub-group list is stored without the field and read back as nil: do not treat nil vs. empty as a change,
+	// otherwise every reconcile of an unchanged workload writes the PodGroup again.
+	oldSpec, newSpec := oldPodGroup.Spec, newPodGroup.Spec
+	if len(oldSpec.SubGroups) == 0 {
+		oldSpec.SubGroups = nil
+	}
+	if len(newSpec.SubGroups) == 0 {
+		newSpec.SubGroups = nil
+	}
+	return reflect.DeepEqual(oldSpec, newSpec) &&
 		reflect.DeepEqual(oldPodGroup.OwnerReferences, newPodGroup.OwnerReferences) &&
 		mapsEqualBySourceKeys(newPodGroup.Labels, oldPodGroup.Labels) &&
 		mapsEqualBySourceKeys(newPodGroup.Annotations, oldPodGroup.Annotations)
 }
 
 func mapsEqualBySourceKeys(source, target map[string]string) bool {
-	if source != nil && target == nil {
+	if len(source) > 0 && target == nil {
 		return false
 	}
 
